@@ -1,23 +1,27 @@
 import C2paModel.Model.C35
-/-
-C35 — property theorems (stream chunking and I/O faults), for the stream-reading code that
-is modelled: the sniff loop of `container_from_stream`, `read_exact`-style loops,
-`read_to_vec`, and `BoxReader::read_header`.
-
-Statement: signing and reading give identical results when the underlying streams return
-data in arbitrarily small pieces; when a stream fails the operation returns an error.
-
-A *schedule* assigns to every `read` call the most it may return (`0` = I/O error); the
-theorems quantify over **every** schedule, every stream content and every position.
-Whole-operation behaviour (all handlers, sign/read) is explored on the implementation by
-the fault/short-read sweeps of the harness; it is not a theorem (see registry/C35.json).
--/
 namespace C2pa.C35
 
-open C2pa.C11 (Fmt b sliceEq id3Size firstMatch)
+open C2pa.C11 (Fmt b sliceEq id3Size firstMatch detectB rulesB isId3 mFLaC lMp3 lFlac detect)
 
-/-- No read of the schedule fails. -/
-def NoFault (sched : List Nat) : Prop := ∀ k ∈ sched, k ≠ 0
+/-- No read of the schedule fails with a hard error (`Interrupted` is allowed). -/
+def NoFault (sched : List Ev) : Prop := ∀ e ∈ sched, e ≠ Ev.rd 0
+
+/-- No seek of the seek schedule fails. -/
+def NoSeekFault (seeks : List Bool) : Prop := ∀ x ∈ seeks, x = false
+
+theorem NoFault.nil : NoFault [] := by intro e h; cases h
+
+theorem NoFault.append {a c : List Ev} (ha : NoFault a) (hc : NoFault c) : NoFault (a ++ c) := by
+  intro e he
+  rcases List.mem_append.1 he with h | h
+  · exact ha e h
+  · exact hc e h
+
+theorem NoFault.right {a c : List Ev} (h : NoFault (a ++ c)) : NoFault c :=
+  fun e he => h e (List.mem_append.2 (Or.inr he))
+
+theorem NoFault.tail {e : Ev} {c : List Ev} (h : NoFault (e :: c)) : NoFault c :=
+  fun x hx => h x (List.mem_cons_of_mem _ hx)
 
 theorem take_split {α} (l : List α) (m w : Nat) (h : m ≤ w) :
     l.take w = l.take m ++ (l.drop (l.take m).length).take (w - (l.take m).length) := by
@@ -35,249 +39,509 @@ theorem take_split {α} (l : List α) (m w : Nat) (h : m ≤ w) :
           Nat.add_sub_add_right]
         rw [← this]
 
-/-- One successful read hands out a non-empty prefix of what remains (unless nothing remains). -/
-theorem readOnce_ok (s : St) (want : Nat) (hn : NoFault s.sched) (hw : 0 < want) :
-    ∃ m s', 1 ≤ m ∧ m ≤ want ∧
-      readOnce s want = (some ((s.data.drop s.pos).take m), s') ∧
-      s'.data = s.data ∧ s'.pos = s.pos + ((s.data.drop s.pos).take m).length ∧
-      NoFault s'.sched := by
+theorem take_pos_eq_nil {α} (l : List α) (m : Nat) (hm : 1 ≤ m) (h : l.take m = []) : l = [] := by
+  cases l with
+  | nil => rfl
+  | cons a t =>
+    cases m with
+    | zero => omega
+    | succ m' => simp at h
+
+/-- What one `read` call can do. -/
+theorem readOnce_spec (s : St) (want : Nat) (hw : want ≠ 0) :
+    (∃ m s1, 1 ≤ m ∧ m ≤ want ∧ readOnce s want = (.ok ((s.data.drop s.pos).take m), s1) ∧
+        s1.data = s.data ∧ s1.pos = s.pos + ((s.data.drop s.pos).take m).length ∧
+        s1.seeks = s.seeks ∧ ∃ c, s.sched = c ++ s1.sched ∧ NoFault c)
+    ∨ (∃ s1, readOnce s want = (.io, s1) ∧ s.sched = Ev.rd 0 :: s1.sched)
+    ∨ (∃ s1, readOnce s want = (.intr, s1) ∧ s.sched = Ev.intr :: s1.sched ∧
+        s1.data = s.data ∧ s1.pos = s.pos ∧ s1.seeks = s.seeks) := by
   unfold readOnce
-  have hw' : want ≠ 0 := by omega
-  simp only [hw', if_false]
+  simp only [hw, if_false]
   cases hs : s.sched with
   | nil =>
-    refine ⟨want, _, hw, Nat.le_refl _, rfl, rfl, rfl, ?_⟩
-    intro k hk; simp [hs] at hk
-  | cons k rest =>
-    cases k with
-    | zero => exact absurd rfl (hn 0 (by simp [hs]))
-    | succ k' =>
-      refine ⟨min want (k' + 1), _, by omega, Nat.min_le_left _ _, rfl, rfl, rfl, ?_⟩
-      intro j hj
-      exact hn j (by simp [hs]; right; exact hj)
+    refine Or.inl ⟨want, _, by omega, Nat.le_refl _, rfl, rfl, rfl, rfl, [], by simp, NoFault.nil⟩
+  | cons e rest =>
+    cases e with
+    | intr => exact Or.inr (Or.inr ⟨_, rfl, rfl, rfl, rfl, rfl⟩)
+    | rd k =>
+      cases k with
+      | zero => exact Or.inr (Or.inl ⟨_, rfl, rfl⟩)
+      | succ k' =>
+        refine Or.inl ⟨min want (k' + 1), _, by omega, Nat.min_le_left _ _, rfl, rfl, rfl, rfl,
+          [Ev.rd (k' + 1)], rfl, ?_⟩
+        intro e he
+        simp at he
+        subst he
+        intro h
+        cases h
 
-/-- **The fill loop is independent of chunking**: under every fault-free schedule it returns
-exactly the next `want` bytes (or all that remain) and advances the position by that much. -/
-theorem readFill_chunk_independent :
-    ∀ (fuel : Nat) (s : St) (want : Nat), want ≤ fuel → NoFault s.sched →
-      ∃ s', readFill fuel s want = (some ((s.data.drop s.pos).take want), s') ∧
-        s'.data = s.data ∧ s'.pos = s.pos + ((s.data.drop s.pos).take want).length ∧
-        NoFault s'.sched := by
+/-! ### The fill loop -/
+
+/-- **Whatever the loop returns is the exact data**: for *every* schedule (faults included), if
+the fill loop returns bytes they are exactly the next `want` bytes (or all that remain), the
+position advanced by that much, and no consumed schedule entry was a hard fault. A fault is
+never turned into data, a truncated or a padded buffer. -/
+theorem readFill_exact : ∀ (fuel : Nat) (s : St) (want : Nat) (bs : List UInt8) (s' : St),
+    want + s.sched.length ≤ fuel → readFill fuel s want = (some bs, s') →
+    bs = (s.data.drop s.pos).take want ∧ s'.data = s.data ∧ s'.pos = s.pos + bs.length ∧
+      s'.seeks = s.seeks ∧ ∃ c, s.sched = c ++ s'.sched ∧ NoFault c := by
   intro fuel
   induction fuel with
   | zero =>
-    intro s want hle hn
-    have : want = 0 := by omega
-    subst this
-    exact ⟨s, by simp [readFill], rfl, by simp, hn⟩
+    intro s want bs s' hf h
+    have hw : want = 0 := by omega
+    subst hw
+    simp [readFill] at h
+    obtain ⟨rfl, rfl⟩ := h
+    exact ⟨by simp, rfl, by simp, rfl, [], by simp, NoFault.nil⟩
   | succ fuel ih =>
-    intro s want hle hn
+    intro s want bs s' hf h
     by_cases hw : want = 0
     · subst hw
-      exact ⟨s, by simp [readFill], rfl, by simp, hn⟩
-    · obtain ⟨m, s1, hm1, hm2, hro, hd, hp, hn1⟩ := readOnce_ok s want hn (by omega)
-      unfold readFill
-      simp only [hw, if_false, hro]
-      cases hbs : (s.data.drop s.pos).take m with
-      | nil =>
-        -- nothing was read although m ≥ 1: nothing remains
-        have hrem : s.data.drop s.pos = [] := by
-          cases hr : s.data.drop s.pos with
-          | nil => rfl
-          | cons a t =>
-            rw [hr] at hbs
-            cases m with
-            | zero => omega
-            | succ m' => simp at hbs
-        refine ⟨s1, by simp [hrem], hd, ?_, hn1⟩
-        rw [hp, hbs, hrem]; simp
-      | cons a t =>
-        have hsplit := take_split (s.data.drop s.pos) m want hm2
-        rw [hbs] at hp hsplit
-        obtain ⟨s2, hrf, hd2, hp2, hn2⟩ :=
-          ih s1 (want - (a :: t).length) (by simp; omega) hn1
-        have hrem1 : s1.data.drop s1.pos = (s.data.drop s.pos).drop (a :: t).length := by
-          rw [hd, hp, List.drop_drop]
-        rw [hrem1] at hrf hp2
-        simp only [hrf]
-        refine ⟨s2, ?_, by rw [hd2, hd], ?_, hn2⟩
-        · rw [← hsplit]
-        · rw [hp2, hp, hsplit, List.length_append]; omega
+      simp [readFill] at h
+      obtain ⟨rfl, rfl⟩ := h
+      exact ⟨by simp, rfl, by simp, rfl, [], by simp, NoFault.nil⟩
+    · rw [readFill, if_neg hw] at h
+      rcases readOnce_spec s want hw with ⟨m, s1, hm1, hm2, hro, hd, hp, hsk, c, hc, hcn⟩ |
+        ⟨s1, hro, _⟩ | ⟨s1, hro, hsc, hd, hp, hsk⟩
+      · rw [hro] at h
+        dsimp only at h
+        have hlen : s.sched.length = c.length + s1.sched.length := by rw [hc, List.length_append]
+        by_cases hbs : (s.data.drop s.pos).take m = []
+        · rw [if_pos hbs] at h
+          simp only [Prod.mk.injEq, Option.some.injEq] at h
+          obtain ⟨rfl, rfl⟩ := h
+          have hrem := take_pos_eq_nil _ m hm1 hbs
+          refine ⟨by rw [hrem]; simp, hd, ?_, hsk, c, hc, hcn⟩
+          rw [hp, hbs]
+        · rw [if_neg hbs] at h
+          have hpos : 1 ≤ ((s.data.drop s.pos).take m).length := by
+            cases hh : (s.data.drop s.pos).take m with
+            | nil => exact absurd hh hbs
+            | cons _ _ => simp
+          cases hrec : readFill fuel s1 (want - ((s.data.drop s.pos).take m).length) with
+          | mk r s2 =>
+            rw [hrec] at h
+            cases r with
+            | none => simp at h
+            | some more =>
+              simp only [Prod.mk.injEq, Option.some.injEq] at h
+              obtain ⟨rfl, rfl⟩ := h
+              obtain ⟨e1, e2, e3, e4, c2, hc2, hcn2⟩ := ih s1 _ more s2 (by omega) hrec
+              have hrem1 : s1.data.drop s1.pos
+                  = (s.data.drop s.pos).drop ((s.data.drop s.pos).take m).length := by
+                rw [hd, hp, List.drop_drop]
+              rw [hrem1] at e1
+              refine ⟨?_, by rw [e2, hd], ?_, by rw [e4, hsk], c ++ c2,
+                by rw [hc, hc2, List.append_assoc], hcn.append hcn2⟩
+              · rw [e1]; exact (take_split _ m want hm2).symm
+              · rw [e3, hp, List.length_append]; omega
+      · rw [hro] at h
+        simp at h
+      · rw [hro] at h
+        dsimp only at h
+        obtain ⟨e1, e2, e3, e4, c2, hc2, hcn2⟩ := ih s1 want bs s' (by rw [hsc] at hf; simp at hf; omega) h
+        refine ⟨by rw [e1, hd, hp], by rw [e2, hd], by rw [e3, hp], by rw [e4, hsk],
+          Ev.intr :: c2, by rw [hsc, hc2]; rfl, ?_⟩
+        intro e he
+        rcases List.mem_cons.1 he with rfl | he
+        · intro hh; cases hh
+        · exact hcn2 e he
 
-/-- `read_exact` under every fault-free schedule: the requested slice, or `UnexpectedEof`
-exactly when fewer than `want` bytes remain. -/
-theorem readExact_chunk_independent (s : St) (want : Nat) (hn : NoFault s.sched) :
-    (readExact s want).1 =
-      if want ≤ (s.data.drop s.pos).length then .ok ((s.data.drop s.pos).take want)
-      else .error .eof := by
-  obtain ⟨s', hrf, _, _, _⟩ := readFill_chunk_independent want s want (Nat.le_refl _) hn
-  unfold readExact
-  rw [hrf]
-  dsimp only
-  have hl : ((s.data.drop s.pos).take want).length = min want (s.data.drop s.pos).length :=
-    List.length_take
-  by_cases h : want ≤ (s.data.drop s.pos).length
-  · have hc : ((s.data.drop s.pos).take want).length = want := by rw [hl]; omega
-    rw [if_pos hc, if_pos h]
-  · have hc : ¬ ((s.data.drop s.pos).take want).length = want := by rw [hl]; omega
-    rw [if_neg hc, if_neg h]
-
-/-- A fault that is reached is never turned into data: if the fill loop returns bytes, no
-schedule entry it consumed was a fault. -/
-theorem readFill_ok_consumed_no_fault :
-    ∀ (fuel : Nat) (s : St) (want : Nat) (bs : List UInt8) (s' : St),
-      readFill fuel s want = (some bs, s') →
-      ∃ consumed, s.sched = consumed ++ s'.sched ∧ NoFault consumed := by
+/-- Without a hard fault in the schedule the loop returns bytes (it cannot fail). -/
+theorem readFill_total : ∀ (fuel : Nat) (s : St) (want : Nat), NoFault s.sched →
+    ∃ bs s', readFill fuel s want = (some bs, s') := by
   intro fuel
   induction fuel with
-  | zero =>
-    intro s want bs s' h
-    simp [readFill] at h
-    exact ⟨[], by simp [h.2], by intro k hk; cases hk⟩
+  | zero => intro s want _; exact ⟨[], s, rfl⟩
   | succ fuel ih =>
-    intro s want bs s' h
-    unfold readFill at h
+    intro s want hn
     by_cases hw : want = 0
-    · simp [hw] at h
-      exact ⟨[], by simp [h.2], by intro k hk; cases hk⟩
-    · simp only [hw, if_false] at h
-      -- one readOnce step
-      have hstep : ∀ r s1, readOnce s want = (r, s1) →
-          ∃ c, s.sched = c ++ s1.sched ∧ (r ≠ none → NoFault c) := by
-        intro r s1 hr
-        unfold readOnce at hr
-        simp only [hw, if_false] at hr
-        cases hs : s.sched with
-        | nil =>
-          rw [hs] at hr; simp at hr
-          exact ⟨[], by simp [← hr.2, hs], fun _ => by intro k hk; cases hk⟩
-        | cons k rest =>
-          rw [hs] at hr
-          cases k with
-          | zero =>
-            simp at hr
-            exact ⟨[0], by simp [← hr.2], fun hne => absurd hr.1.symm hne⟩
-          | succ k' =>
-            simp at hr
-            refine ⟨[k' + 1], by simp [← hr.2], fun _ => ?_⟩
-            intro j hj; simp at hj; omega
-      cases hro : readOnce s want with
-      | mk r s1 =>
-        obtain ⟨c, hc, hnf⟩ := hstep r s1 hro
-        rw [hro] at h
-        cases r with
-        | none => simp at h
-        | some got =>
-          have hcn := hnf (by simp)
-          cases got with
-          | nil =>
-            simp at h
-            exact ⟨c, by rw [hc, h.2], hcn⟩
-          | cons a t =>
-            simp only at h
-            cases hrec : readFill fuel s1 (want - (a :: t).length) with
-            | mk r2 s2 =>
-              rw [hrec] at h
-              cases r2 with
-              | none => simp at h
-              | some more =>
-                simp at h
-                obtain ⟨c2, hc2, hn2⟩ := ih s1 _ more s2 hrec
-                refine ⟨c ++ c2, by rw [hc, hc2, ← h.2, List.append_assoc], ?_⟩
-                intro k hk
-                rcases List.mem_append.1 hk with hk | hk
-                · exact hcn k hk
-                · exact hn2 k hk
+    · exact ⟨[], s, by rw [readFill, if_pos hw]⟩
+    · rw [readFill, if_neg hw]
+      rcases readOnce_spec s want hw with ⟨m, s1, _, _, hro, _, _, _, c, hc, _⟩ |
+        ⟨s1, _, hsc⟩ | ⟨s1, hro, hsc, _, _, _⟩
+      · rw [hro]
+        dsimp only
+        by_cases hbs : (s.data.drop s.pos).take m = []
+        · rw [if_pos hbs]; exact ⟨_, _, rfl⟩
+        · rw [if_neg hbs]
+          have hn1 : NoFault s1.sched := by rw [hc] at hn; exact hn.right
+          obtain ⟨more, s2, hrec⟩ := ih s1 (want - ((s.data.drop s.pos).take m).length) hn1
+          rw [hrec]
+          exact ⟨_, _, rfl⟩
+      · exact absurd rfl (hn (Ev.rd 0) (by rw [hsc]; exact List.mem_cons_self))
+      · rw [hro]
+        dsimp only
+        exact ih s1 want (by rw [hsc] at hn; exact hn.tail)
 
-/-- `read_to_vec` under every fault-free schedule equals the full-read result. -/
-theorem readToVec_chunk_independent (data : List UInt8) (pos want : Nat) (sched : List Nat)
-    (hn : NoFault sched) :
-    readToVec data pos want sched false = readToVec data pos want [] false := by
-  unfold readToVec
-  by_cases h1 : pos + want ≥ 2 ^ 64
-  · simp [h1]
-  · by_cases h2 : pos + want > data.length
-    · simp [h1, h2]
-    · simp only [h1, h2, if_false]
-      have hf : sched.filter (· ≠ 0) = sched := by
-        apply List.filter_eq_self.2; intro k hk; simpa using hn k hk
-      have e1 := readFill_chunk_independent want { data := data, pos := pos, sched := sched } want
-        (Nat.le_refl _) hn
-      have e2 := readFill_chunk_independent want { data := data, pos := pos, sched := [] } want
-        (Nat.le_refl _) (by intro k hk; cases hk)
-      obtain ⟨_, h1', _⟩ := e1
-      obtain ⟨_, h2', _⟩ := e2
-      simp only [Bool.false_eq_true, if_false, hf, List.filter_nil, h1', h2']
+/-- **The fill loop is independent of chunking**: under every schedule without a hard fault
+(any short reads, `Interrupted` anywhere) it returns exactly the next `want` bytes (or all that
+remain) and advances the position by that much. -/
+theorem fill_chunk_independent (s : St) (want : Nat) (hn : NoFault s.sched) :
+    ∃ s', fill s want = (some ((s.data.drop s.pos).take want), s') ∧
+      s'.data = s.data ∧ s'.pos = s.pos + ((s.data.drop s.pos).take want).length ∧
+      s'.seeks = s.seeks ∧ NoFault s'.sched := by
+  obtain ⟨bs, s', h⟩ := readFill_total (want + s.sched.length) s want hn
+  obtain ⟨e1, e2, e3, e4, c, hc, _⟩ := readFill_exact _ s want bs s' (Nat.le_refl _) h
+  subst e1
+  exact ⟨s', h, e2, e3, e4, by rw [hc] at hn; exact hn.right⟩
 
-/-- `read_to_vec`: a delivered fault is an error, never data. -/
-theorem readToVec_fault_is_error (data : List UInt8) (pos want : Nat) (sched : List Nat) :
-    readToVec data pos want sched true = none := by
-  unfold readToVec
-  by_cases h1 : pos + want ≥ 2 ^ 64
-  · simp [h1]
-  · by_cases h2 : pos + want > data.length <;> simp [h1, h2]
+/-- **Fault or exact** (every schedule): the fill loop either reports the I/O error or returns
+exactly what a full read returns. -/
+theorem fill_fault_or_exact (s : St) (want : Nat) :
+    (fill s want).1 = none ∨ (fill s want).1 = some ((s.data.drop s.pos).take want) := by
+  cases h : fill s want with
+  | mk r s' =>
+    cases r with
+    | none => exact Or.inl rfl
+    | some bs =>
+      obtain ⟨e1, _⟩ := readFill_exact _ s want bs s' (Nat.le_refl _) h
+      exact Or.inr (by rw [e1])
 
-/-! ### The sniff: chunk independence (after the fill-loop repair of `container_from_stream`) -/
-
-theorem rules_eq (pdf : Bool) (data : List UInt8) :
-    C2pa.C11.rules pdf data =
-      rulesB pdf (data.take 16) (sliceEq data (10 + id3Size (data.take 16)) (b "fLaC")) := by
-  cases pdf <;> simp [C2pa.C11.rules, rulesB]
-
-/-- **Sniffing does not depend on chunking**: under every fault-free schedule the detected
-container is the one detected from a full read (C11's `detect`). -/
-theorem sniff_chunk_independent (pdf : Bool) (data : List UInt8) (sched : List Nat)
-    (hn : NoFault sched) : sniff pdf data sched = C2pa.C11.detect pdf data := by
-  obtain ⟨s1, hrf, hd, hp, hn1⟩ :=
-    readFill_chunk_independent 16 { data := data, pos := 0, sched := sched } 16 (Nat.le_refl _) hn
-  unfold sniff C2pa.C11.detect
-  simp only [List.drop_zero] at hrf
-  rw [hrf]
-  dsimp only
-  by_cases hlen : (data.take 16).length < 2
-  · rw [if_pos hlen, if_pos hlen]
-  · rw [if_neg hlen, if_neg hlen]
-    have hpeek := readExact_chunk_independent
-      { s1 with pos := 10 + id3Size (data.take 16) } 4 hn1
-    have hd' : s1.data = data := hd
-    rw [hd'] at hpeek ⊢
-    rw [rules_eq, hpeek]
-    congr 1
-    unfold sliceEq
-    have hb : (b "fLaC").length = 4 := by decide
-    rw [hb]
-    by_cases h4 : 4 ≤ (List.drop (10 + id3Size (List.take 16 data)) data).length
-    · rw [if_pos h4]
-    · rw [if_neg h4]
-      -- fewer than 4 bytes there: the full-read slice cannot equal the 4-byte marker
-      have hne : (List.take 4 (List.drop (10 + id3Size (List.take 16 data)) data)) ≠ b "fLaC" := by
-        intro heq
-        have := congrArg List.length heq
-        rw [List.length_take, hb] at this
-        omega
-      rw [beq_eq_false_iff_ne.2 hne]
-
-/-- `read_exact` with its post-state, under every fault-free schedule. -/
-theorem readExact_spec (s : St) (want : Nat) (hn : NoFault s.sched) :
-    ∃ s', readExact s want =
-        ((if want ≤ (s.data.drop s.pos).length then .ok ((s.data.drop s.pos).take want)
-          else .error .eof), s') ∧
+/-- Fuel form of `fill_chunk_independent` (any sufficient fuel). -/
+theorem readFill_chunk_independent (fuel : Nat) (s : St) (want : Nat)
+    (hf : want + s.sched.length ≤ fuel) (hn : NoFault s.sched) :
+    ∃ s', readFill fuel s want = (some ((s.data.drop s.pos).take want), s') ∧
       s'.data = s.data ∧ s'.pos = s.pos + ((s.data.drop s.pos).take want).length ∧
       NoFault s'.sched := by
-  obtain ⟨s', hrf, hd, hp, hn'⟩ := readFill_chunk_independent want s want (Nat.le_refl _) hn
-  refine ⟨s', ?_, hd, hp, hn'⟩
-  unfold readExact
-  rw [hrf]
-  dsimp only
-  have hl : ((s.data.drop s.pos).take want).length = min want (s.data.drop s.pos).length :=
-    List.length_take
-  by_cases h : want ≤ (s.data.drop s.pos).length
-  · have hc : ((s.data.drop s.pos).take want).length = want := by rw [hl]; omega
-    rw [if_pos hc, if_pos h]
-  · have hc : ¬ ((s.data.drop s.pos).take want).length = want := by rw [hl]; omega
-    rw [if_neg hc, if_neg h]
+  obtain ⟨bs, s', h⟩ := readFill_total fuel s want hn
+  obtain ⟨e1, e2, e3, _, c, hc, _⟩ := readFill_exact fuel s want bs s' hf h
+  subst e1
+  exact ⟨s', h, e2, e3, by rw [hc] at hn; exact hn.right⟩
 
-/-- The header as a function of the stream content alone (what a full-read stream yields). -/
+/-- A fault that is reached is never turned into data: if the fill loop returns bytes, no
+schedule entry it consumed was a hard fault (any fuel). -/
+theorem readFill_ok_consumed_no_fault (s : St) (want : Nat) (bs : List UInt8) (s' : St)
+    (h : fill s want = (some bs, s')) :
+    ∃ consumed, s.sched = consumed ++ s'.sched ∧ NoFault consumed :=
+  (readFill_exact _ s want bs s' (Nat.le_refl _) h).2.2.2.2
+
+/-- bytes the `read` calls of a schedule prefix can deliver at most -/
+def budget : List Ev → Nat
+  | [] => 0
+  | Ev.rd k :: r => k + budget r
+  | Ev.intr :: r => budget r
+
+/-- **A hard fault that is reached is an error**: if the reads before the failing one cannot
+deliver the `want` bytes (nor reach the end of the data), the loop returns the I/O error —
+whatever comes after in the schedule. -/
+theorem readFill_fault_reached : ∀ (pre post : List Ev) (fuel : Nat) (s : St) (want : Nat),
+    s.sched = pre ++ Ev.rd 0 :: post → NoFault pre → want + s.sched.length ≤ fuel →
+    budget pre < want → budget pre < (s.data.drop s.pos).length →
+    (readFill fuel s want).1 = none := by
+  intro pre
+  induction pre with
+  | nil =>
+    intro post fuel s want hs _ hf hb _
+    have hw : want ≠ 0 := by simp [budget] at hb; omega
+    obtain ⟨fuel', rfl⟩ : ∃ f, fuel = f + 1 := ⟨fuel - 1, by omega⟩
+    have hro : readOnce s want = (.io, { s with sched := post }) := by
+      unfold readOnce; simp [hw, hs]
+    rw [readFill, if_neg hw, hro]
+  | cons e pre ih =>
+    intro post fuel s want hs hn hf hb hr
+    have hw : want ≠ 0 := by omega
+    obtain ⟨fuel', rfl⟩ : ∃ f, fuel = f + 1 := ⟨fuel - 1, by omega⟩
+    rw [readFill, if_neg hw]
+    cases e with
+    | intr =>
+      obtain ⟨s1, hro, hd1, hp1, hs1⟩ : ∃ s1, readOnce s want = (.intr, s1) ∧ s1.data = s.data ∧
+          s1.pos = s.pos ∧ s1.sched = pre ++ Ev.rd 0 :: post :=
+        ⟨{ s with sched := pre ++ Ev.rd 0 :: post }, by unfold readOnce; simp [hw, hs], rfl, rfl, rfl⟩
+      rw [hro]
+      dsimp only
+      apply ih post fuel' s1 want hs1 hn.tail
+      · rw [hs1]; rw [hs] at hf; simp at hf ⊢; omega
+      · simpa [budget] using hb
+      · rw [hd1, hp1]; simpa [budget] using hr
+    | rd k =>
+      cases k with
+      | zero => exact absurd rfl (hn (Ev.rd 0) List.mem_cons_self)
+      | succ k' =>
+        simp only [budget] at hb hr
+        have hmin : min want (k' + 1) = k' + 1 := by omega
+        obtain ⟨s1, hro, hd1, hp1, hs1⟩ : ∃ s1, readOnce s want
+              = (.ok ((s.data.drop s.pos).take (k' + 1)), s1) ∧ s1.data = s.data ∧
+            s1.pos = s.pos + ((s.data.drop s.pos).take (k' + 1)).length ∧
+            s1.sched = pre ++ Ev.rd 0 :: post :=
+          ⟨{ s with pos := s.pos + ((s.data.drop s.pos).take (k' + 1)).length, sched := pre ++ Ev.rd 0 :: post },
+            by unfold readOnce; simp [hw, hs, hmin], rfl, rfl, rfl⟩
+        rw [hro]
+        dsimp only
+        have hlen : ((s.data.drop s.pos).take (k' + 1)).length = k' + 1 := by
+          rw [List.length_take]; omega
+        have hne : (s.data.drop s.pos).take (k' + 1) ≠ [] := by
+          intro h; rw [h] at hlen; simp at hlen
+        rw [if_neg hne]
+        have hrec := ih post fuel' s1 (want - ((s.data.drop s.pos).take (k' + 1)).length)
+          hs1 hn.tail (by rw [hs1]; rw [hs] at hf; simp at hf ⊢; omega) (by omega)
+          (by rw [hd1, hp1, hlen, ← List.drop_drop, List.length_drop]; omega)
+        cases hrec2 : readFill fuel' s1 (want - ((s.data.drop s.pos).take (k' + 1)).length) with
+        | mk r s2 =>
+          rw [hrec2] at hrec
+          simp only at hrec
+          subst hrec
+          rfl
+
+theorem fill_fault_reached (pre post : List Ev) (s : St) (want : Nat)
+    (hs : s.sched = pre ++ Ev.rd 0 :: post) (hn : NoFault pre)
+    (hb : budget pre < want) (hr : budget pre < (s.data.drop s.pos).length) :
+    (fill s want).1 = none :=
+  readFill_fault_reached pre post _ s want hs hn (Nat.le_refl _) hb hr
+
+/-! ### `read_exact` -/
+
+/-- The value `read_exact(want)` has on a stream that delivers everything. -/
+def exactOf (s : St) (want : Nat) : Except RErr (List UInt8) :=
+  if want ≤ (s.data.drop s.pos).length then .ok ((s.data.drop s.pos).take want) else .error .eof
+
+/-- **`read_exact`, every schedule**: the I/O error, or exactly the full-read outcome (the
+requested slice, or `UnexpectedEof` exactly when fewer than `want` bytes remain) with the
+position advanced over what was read. -/
+theorem readExact_cases (s : St) (want : Nat) :
+    (∃ s', readExact s want = (.error .io, s') ∧ ¬ NoFault s.sched)
+    ∨ (∃ s', readExact s want = (exactOf s want, s') ∧ s'.data = s.data ∧
+        s'.pos = s.pos + ((s.data.drop s.pos).take want).length ∧ s'.seeks = s.seeks ∧
+        ∃ c, s.sched = c ++ s'.sched ∧ NoFault c) := by
+  unfold readExact
+  cases h : fill s want with
+  | mk r s' =>
+    cases r with
+    | none =>
+      refine Or.inl ⟨s', rfl, fun hn => ?_⟩
+      obtain ⟨_, hh, _⟩ := fill_chunk_independent s want hn
+      rw [h] at hh; simp at hh
+    | some bs =>
+      obtain ⟨e1, e2, e3, e4, c, hc, hcn⟩ := readFill_exact _ s want bs s' (Nat.le_refl _) h
+      subst e1
+      refine Or.inr ⟨s', ?_, e2, e3, e4, c, hc, hcn⟩
+      dsimp only
+      have hl : ((s.data.drop s.pos).take want).length = min want (s.data.drop s.pos).length :=
+        List.length_take
+      unfold exactOf
+      by_cases hle : want ≤ (s.data.drop s.pos).length
+      · have hc : ((s.data.drop s.pos).take want).length = want := by rw [hl]; omega
+        rw [if_pos hc, if_pos hle]
+      · have hc : ¬ ((s.data.drop s.pos).take want).length = want := by rw [hl]; omega
+        rw [if_neg hc, if_neg hle]
+
+/-- `read_exact` under every schedule without a hard fault (short reads, `Interrupted`). -/
+theorem readExact_spec (s : St) (want : Nat) (hn : NoFault s.sched) :
+    ∃ s', readExact s want = (exactOf s want, s') ∧ s'.data = s.data ∧
+      s'.pos = s.pos + ((s.data.drop s.pos).take want).length ∧ s'.seeks = s.seeks ∧
+      NoFault s'.sched := by
+  rcases readExact_cases s want with ⟨_, _, hbad⟩ | ⟨s', h, e2, e3, e4, c, hc, _⟩
+  · exact absurd hn hbad
+  · exact ⟨s', h, e2, e3, e4, by rw [hc] at hn; exact hn.right⟩
+
+theorem readExact_chunk_independent (s : St) (want : Nat) (hn : NoFault s.sched) :
+    (readExact s want).1 = exactOf s want := by
+  obtain ⟨s', h, _⟩ := readExact_spec s want hn
+  rw [h]
+
+/-- **Fault or exact**: `read_exact` never returns `Ok` with other bytes, and never reports
+`UnexpectedEof` for data that is there — under any schedule. -/
+theorem readExact_fault_or_exact (s : St) (want : Nat) :
+    (readExact s want).1 = .error .io ∨ (readExact s want).1 = exactOf s want := by
+  rcases readExact_cases s want with ⟨_, h, _⟩ | ⟨_, h, _⟩
+  · exact Or.inl (by rw [h])
+  · exact Or.inr (by rw [h])
+
+/-! ### seeks -/
+
+theorem seekTo_spec (s : St) (p : Nat) :
+    (∃ s', seekTo s p = (true, s') ∧ s'.data = s.data ∧ s'.pos = p ∧ s'.sched = s.sched ∧
+        ∃ c, s.seeks = c ++ s'.seeks ∧ NoSeekFault c)
+    ∨ (∃ s', seekTo s p = (false, s') ∧ ¬ NoSeekFault s.seeks) := by
+  unfold seekTo
+  cases hs : s.seeks with
+  | nil => exact Or.inl ⟨_, rfl, rfl, rfl, rfl, [], by simp, by intro x hx; cases hx⟩
+  | cons x rest =>
+    cases x with
+    | true =>
+      exact Or.inr ⟨_, rfl, fun h => by have := h true List.mem_cons_self; cases this⟩
+    | false =>
+      refine Or.inl ⟨_, rfl, rfl, rfl, rfl, [false], rfl, ?_⟩
+      intro x hx; simpa using hx
+
+theorem NoSeekFault.right {a c : List Bool} (h : NoSeekFault (a ++ c)) : NoSeekFault c :=
+  fun e he => h e (List.mem_append.2 (Or.inr he))
+
+theorem seekTo_ok (s : St) (p : Nat) (hn : NoSeekFault s.seeks) :
+    ∃ s', seekTo s p = (true, s') ∧ s'.data = s.data ∧ s'.pos = p ∧ s'.sched = s.sched ∧
+      NoSeekFault s'.seeks := by
+  rcases seekTo_spec s p with ⟨s', h, e1, e2, e3, c, hc, _⟩ | ⟨_, _, hbad⟩
+  · exact ⟨s', h, e1, e2, e3, by rw [hc] at hn; exact hn.right⟩
+  · exact absurd hn hbad
+
+/-! ### `read_to_vec` -/
+
+/-- What `read_to_vec` returns on a stream without short reads and faults: the closed form. -/
+def toVecOf (data : List UInt8) (pos want : Nat) : Option (List UInt8) :=
+  if pos + want ≥ 2 ^ 64 ∨ pos + want > data.length ∨ want ≥ 2 ^ 63 then none
+  else some ((data.drop pos).take want)
+
+theorem readToVec_full (data : List UInt8) (pos want : Nat) :
+    readToVec data pos want [] [] = toVecOf data pos want := by
+  unfold readToVec toVecOf seekTo
+  dsimp only
+  have hf : ∀ s : St, s.sched = [] → (fill s want).1 = some ((s.data.drop s.pos).take want) := by
+    intro s hs
+    obtain ⟨s', h, _⟩ := fill_chunk_independent s want (by rw [hs]; exact NoFault.nil)
+    rw [h]
+  by_cases hp : pos = data.length
+  · simp only [hp, if_true]
+    split
+    · next h => simp [h]
+    · next h =>
+      split
+      · next h2 => simp [h2]
+      · next h2 =>
+        split
+        · next h3 => simp [h3]
+        · next h3 =>
+          rw [hf _ rfl]
+          have : ¬ (data.length + want ≥ 2 ^ 64 ∨ data.length + want > data.length ∨ want ≥ 2 ^ 63) := by
+            omega
+          rw [if_neg this]
+  · simp only [hp, if_false]
+    split
+    · next h => simp [h]
+    · next h =>
+      split
+      · next h2 => simp [h2]
+      · next h2 =>
+        split
+        · next h3 => simp [h3]
+        · next h3 =>
+          rw [hf _ rfl]
+          have : ¬ (pos + want ≥ 2 ^ 64 ∨ pos + want > data.length ∨ want ≥ 2 ^ 63) := by omega
+          rw [if_neg this]
+
+/-- **`read_to_vec`, every read schedule and every seek schedule**: an error, or exactly the
+full-read result — never other bytes, never fewer. -/
+theorem readToVec_fault_or_exact (data : List UInt8) (pos want : Nat) (sched : List Ev)
+    (seeks : List Bool) :
+    readToVec data pos want sched seeks = none
+      ∨ readToVec data pos want sched seeks = toVecOf data pos want := by
+  unfold readToVec
+  rcases seekTo_spec { data := data, pos := pos, sched := sched, seeks := seeks } pos with
+    ⟨s1, h1, d1, p1, _, _⟩ | ⟨_, h1, _⟩
+  · rw [h1]; dsimp only
+    rcases seekTo_spec s1 data.length with ⟨s2, h2, d2, p2, _, _⟩ | ⟨_, h2, _⟩
+    · rw [h2]; dsimp only
+      have h3 : ∃ r, (if pos = data.length then (true, s2) else seekTo s2 pos) = r ∧
+          (r.1 = false ∨ (r.1 = true ∧ r.2.data = data ∧ r.2.pos = pos)) := by
+        by_cases hp : pos = data.length
+        · exact ⟨_, rfl, Or.inr ⟨by simp [hp], by simp [hp, d2, d1], by simp [hp, p2]⟩⟩
+        · rcases seekTo_spec s2 pos with ⟨s3, h3, d3, p3, _, _⟩ | ⟨_, h3, _⟩
+          · exact ⟨_, rfl, Or.inr ⟨by simp [hp, h3], by simp [hp, h3, d3, d2, d1], by simp [hp, h3, p3]⟩⟩
+          · exact ⟨_, rfl, Or.inl (by simp [hp, h3])⟩
+      obtain ⟨⟨ok, s3⟩, hr, hcase⟩ := h3
+      rw [hr]
+      rcases hcase with hfalse | ⟨htrue, d3, p3⟩
+      · simp only at hfalse; subst hfalse; exact Or.inl rfl
+      · simp only at htrue d3 p3; subst htrue
+        dsimp only
+        unfold toVecOf
+        by_cases c1 : pos + want ≥ 2 ^ 64
+        · simp [c1]
+        · by_cases c2 : pos + want > data.length
+          · simp [c1, c2]
+          · by_cases c3 : want ≥ 2 ^ 63
+            · simp [c1, c2, c3]
+            · rw [if_neg c1, if_neg c2, if_neg c3, if_neg (by omega)]
+              rcases fill_fault_or_exact s3 want with h | h
+              · exact Or.inl h
+              · exact Or.inr (by rw [h, d3, p3])
+    · rw [h2]; exact Or.inl rfl
+  · rw [h1]; exact Or.inl rfl
+
+/-- **`read_to_vec` is independent of chunking**: without a hard read fault and without a
+failing seek (any short reads, `Interrupted` anywhere) the result is the full-read result. -/
+theorem readToVec_chunk_independent (data : List UInt8) (pos want : Nat) (sched : List Ev)
+    (seeks : List Bool) (hn : NoFault sched) (hs : NoSeekFault seeks) :
+    readToVec data pos want sched seeks = toVecOf data pos want := by
+  unfold readToVec
+  obtain ⟨s1, h1, d1, p1, c1, k1⟩ :=
+    seekTo_ok { data := data, pos := pos, sched := sched, seeks := seeks } pos hs
+  rw [h1]; dsimp only
+  obtain ⟨s2, h2, d2, p2, c2, k2⟩ := seekTo_ok s1 data.length k1
+  rw [h2]; dsimp only
+  have h3 : ∃ s3, (if pos = data.length then (true, s2) else seekTo s2 pos) = (true, s3) ∧
+      s3.data = data ∧ s3.pos = pos ∧ s3.sched = sched := by
+    by_cases hp : pos = data.length
+    · exact ⟨s2, by simp [hp], by rw [d2, d1], by rw [p2, hp], by rw [c2, c1]⟩
+    · obtain ⟨s3, h3, d3, p3, c3, _⟩ := seekTo_ok s2 pos k2
+      exact ⟨s3, by simp [hp, h3], by rw [d3, d2, d1], p3, by rw [c3, c2, c1]⟩
+  obtain ⟨s3, h3, d3, p3, c3⟩ := h3
+  rw [h3]; dsimp only
+  unfold toVecOf
+  by_cases q1 : pos + want ≥ 2 ^ 64
+  · simp [q1]
+  · by_cases q2 : pos + want > data.length
+    · simp [q1, q2]
+    · by_cases q3 : want ≥ 2 ^ 63
+      · simp [q1, q2, q3]
+      · rw [if_neg q1, if_neg q2, if_neg q3, if_neg (by omega)]
+        obtain ⟨_, h, _⟩ := fill_chunk_independent s3 want (by rw [c3]; exact hn)
+        rw [h, d3, p3]
+
+/-- **A failing seek is an error**: when the first seek-type call (`stream_position`) fails, or
+the second (`seek(End(0))`), or the third (back to the old position, made unless already at the
+end), `read_to_vec` returns the error. -/
+theorem readToVec_seek_fault_is_error (data : List UInt8) (pos want : Nat) (sched : List Ev)
+    (seeks : List Bool)
+    (h : (seeks.take (if pos = data.length then 2 else 3)).contains true = true) :
+    readToVec data pos want sched seeks = none := by
+  unfold readToVec seekTo
+  match seeks, h with
+  | true :: _, _ => rfl
+  | false :: true :: _, _ => rfl
+  | false :: false :: true :: _, h =>
+    by_cases hp : pos = data.length
+    · simp [hp] at h
+    · simp [hp]
+  | [], h => simp at h
+  | [false], h => split at h <;> simp at h
+  | [false, false], h => split at h <;> simp at h
+  | false :: false :: false :: _, h => split at h <;> simp at h
+
+/-- **A hard read fault that is reached is an error**: in-range request, seeks succeed, and the
+reads before the failing one cannot deliver `want` bytes. (Replaces a statement that was true by
+definition; the model now decides itself whether the fault is reached.) -/
+theorem readToVec_fault_reached (data : List UInt8) (pos want : Nat) (pre post : List Ev)
+    (seeks : List Bool) (hs : NoSeekFault seeks) (hn : NoFault pre)
+    (hin : pos + want ≤ data.length) (hb : budget pre < want) :
+    readToVec data pos want (pre ++ Ev.rd 0 :: post) seeks = none := by
+  unfold readToVec
+  obtain ⟨s1, h1, d1, p1, c1, k1⟩ :=
+    seekTo_ok { data := data, pos := pos, sched := pre ++ Ev.rd 0 :: post, seeks := seeks } pos hs
+  rw [h1]; dsimp only
+  obtain ⟨s2, h2, d2, p2, c2, k2⟩ := seekTo_ok s1 data.length k1
+  rw [h2]; dsimp only
+  have h3 : ∃ s3, (if pos = data.length then (true, s2) else seekTo s2 pos) = (true, s3) ∧
+      s3.data = data ∧ s3.pos = pos ∧ s3.sched = pre ++ Ev.rd 0 :: post := by
+    by_cases hp : pos = data.length
+    · exact ⟨s2, by simp [hp], by rw [d2, d1], by rw [p2, hp], by rw [c2, c1]⟩
+    · obtain ⟨s3, h3, d3, p3, c3, _⟩ := seekTo_ok s2 pos k2
+      exact ⟨s3, by simp [hp, h3], by rw [d3, d2, d1], p3, by rw [c3, c2, c1]⟩
+  obtain ⟨s3, h3, d3, p3, c3⟩ := h3
+  rw [h3]; dsimp only
+  split
+  · rfl
+  · split
+    · rfl
+    · split
+      · rfl
+      · exact fill_fault_reached pre post s3 want c3 hn hb
+          (by rw [d3, p3, List.length_drop]; omega)
+
+/-! ### `BoxReader::read_header` -/
+
+/-- The header as a function of the bytes from the current position on (what a stream that
+delivers everything yields). -/
 def headerOf (data : List UInt8) : Option Hdr :=
   if data = [] then some .empty
   else if data.length < 8 then some .eof
@@ -288,70 +552,407 @@ def headerOf (data : List UInt8) : Option Hdr :=
       (if 16 ≤ data.length then some (.ok typ (be ((data.drop 8).take 8))) else some .eof)
     else some (.ok typ size)
 
-/-- **`BoxReader::read_header` is independent of chunking** (after the repair that completes a
-short first read): under every fault-free schedule the result is `headerOf data`. -/
-theorem readHeader_chunk_independent (data : List UInt8) (sched : List Nat) (hn : NoFault sched) :
-    readHeader data sched = headerOf data := by
-  obtain ⟨m, s1, hm1, hm2, hro, hd1, hp1, hn1⟩ :=
-    readOnce_ok { data := data, pos := 0, sched := sched } 8 hn (by decide)
-  simp only [List.drop_zero, Nat.zero_add] at hro hp1
-  have hd1' : s1.data = data := hd1
-  unfold readHeader headerOf
-  rw [hro]
-  cases hbs : data.take m with
-  | nil =>
-    have : data = [] := by
-      cases data with
-      | nil => rfl
-      | cons a t => cases m with
-        | zero => omega
-        | succ m' => simp at hbs
-    simp [this]
-  | cons a t =>
-    have hne : data ≠ [] := by intro h; rw [h] at hbs; simp at hbs
-    have hlen : (a :: t).length = min m data.length := by rw [← hbs, List.length_take]
-    obtain ⟨s2, hre, hd2, hp2, hn2⟩ := readExact_spec s1 (8 - (a :: t).length) hn1
-    rw [hd1', hp1, hbs] at hre hp2
-    dsimp only
-    rw [hre]
-    have hdl : (data.drop (a :: t).length).length = data.length - (a :: t).length := List.length_drop
-    by_cases h8 : data.length < 8
-    · have : ¬ (8 - (a :: t).length ≤ (data.drop (a :: t).length).length) := by rw [hdl]; omega
-      rw [if_neg this]
-      simp [hne, h8]
-    · have hfit : 8 - (a :: t).length ≤ (data.drop (a :: t).length).length := by rw [hdl]; omega
-      rw [if_pos hfit]
+/-- Master lemma: `read_header` returns the header of the data, or the I/O error — and the
+error only when a read really failed (hard fault somewhere in the schedule, or `Interrupted`
+delivered to the first, bare `read`). -/
+theorem readHeader_cases (data : List UInt8) (pos : Nat) (sched : List Ev) :
+    readHeader data pos sched = headerOf (data.drop pos)
+      ∨ (readHeader data pos sched = none ∧ (¬ NoFault sched ∨ sched.head? = some Ev.intr)) := by
+  unfold readHeader
+  rcases readOnce_spec { data := data, pos := pos, sched := sched } 8 (by decide) with
+    ⟨m, s1, hm1, hm2, hro, hd1, hp1, _, c, hc, _⟩ | ⟨s1, hro, hsc⟩ | ⟨s1, hro, hsc, _, _, _⟩
+  · simp only at hro hd1 hp1 hc
+    rw [hro]
+    cases hbs : (data.drop pos).take m with
+    | nil =>
+      have := take_pos_eq_nil _ m hm1 hbs
+      left; unfold headerOf; rw [if_pos this]
+    | cons a t =>
       dsimp only
-      have hbuf : (a :: t) ++ (data.drop (a :: t).length).take (8 - (a :: t).length) = data.take 8 := by
-        have := take_split data m 8 hm2
-        rw [hbs] at this
-        exact this.symm
-      rw [hbuf]
-      have hd2' : s2.data = data := by rw [hd2, hd1']
-      have hp2' : s2.pos = 8 := by
-        rw [hp2, List.length_take, hdl]; omega
-      have hlarge := readExact_spec s2 8 hn2
-      obtain ⟨s3, hre3, _, _, _⟩ := hlarge
-      rw [hd2', hp2'] at hre3
-      have h48 : (data.take 8).take 4 = data.take 4 := by rw [List.take_take]; simp
-      have h84 : ((data.take 8).drop 4).take 4 = (data.drop 4).take 4 := by
-        rw [List.drop_take, List.take_take]; simp
-      rw [h48, h84]
-      simp only [hne, h8, if_false]
-      by_cases hs1 : be (data.take 4) = 1
-      · simp only [hs1, if_true]
-        rw [hre3]
-        by_cases h16 : 16 ≤ data.length
-        · have h' : 8 ≤ data.length - 8 := by omega
-          simp [h', h16]
-        · have h' : ¬ 8 ≤ data.length - 8 := by omega
-          simp [h', h16]
-      · simp [hs1]
+      rw [hbs] at hp1
+      have hne : data.drop pos ≠ [] := by intro h; rw [h] at hbs; simp at hbs
+      have hlen : (a :: t).length = min m (data.drop pos).length := by rw [← hbs, List.length_take]
+      have hrem1 : s1.data.drop s1.pos = (data.drop pos).drop (a :: t).length := by
+        rw [hd1, hp1, List.drop_drop]
+      have hnf : ¬ NoFault s1.sched → ¬ NoFault sched := by
+        intro h1 h2; rw [hc] at h2; exact h1 h2.right
+      rcases readExact_cases s1 (8 - (a :: t).length) with ⟨s2, hre, hbad⟩ |
+        ⟨s2, hre, hd2, hp2, _, c2, hc2, _⟩
+      · rw [hre]; right; exact ⟨rfl, Or.inl (hnf hbad)⟩
+      · rw [hre]
+        unfold exactOf
+        rw [hrem1] at hp2 ⊢
+        have hdl : ((data.drop pos).drop (a :: t).length).length
+            = (data.drop pos).length - (a :: t).length := List.length_drop
+        by_cases h8 : (data.drop pos).length < 8
+        · have : ¬ (8 - (a :: t).length ≤ ((data.drop pos).drop (a :: t).length).length) := by
+            rw [hdl]; omega
+          rw [if_neg this]
+          left; unfold headerOf; rw [if_neg hne, if_pos h8]
+        · have hfit : 8 - (a :: t).length ≤ ((data.drop pos).drop (a :: t).length).length := by
+            rw [hdl]; omega
+          rw [if_pos hfit]
+          dsimp only
+          have hbuf : (a :: t) ++ ((data.drop pos).drop (a :: t).length).take (8 - (a :: t).length)
+              = (data.drop pos).take 8 := by
+            have := take_split (data.drop pos) m 8 hm2
+            rw [hbs] at this
+            exact this.symm
+          rw [hbuf]
+          have h48 : ((data.drop pos).take 8).take 4 = (data.drop pos).take 4 := by
+            rw [List.take_take]; simp
+          have h84 : (((data.drop pos).take 8).drop 4).take 4 = ((data.drop pos).drop 4).take 4 := by
+            rw [List.drop_take, List.take_take]; simp
+          rw [h48, h84]
+          have hrem2 : s2.data.drop s2.pos = (data.drop pos).drop 8 := by
+            rw [hd2, hp2, hd1, hp1, List.length_take, hdl, List.drop_drop]
+            congr 1; omega
+          by_cases hs1 : be ((data.drop pos).take 4) = 1
+          · rw [if_pos hs1]
+            have hnf2 : ¬ NoFault s2.sched → ¬ NoFault sched := by
+              intro h1; apply hnf; intro h2; rw [hc2] at h2; exact h1 h2.right
+            rcases readExact_cases s2 8 with ⟨s3, hre3, hbad3⟩ | ⟨s3, hre3, _⟩
+            · rw [hre3]; right; exact ⟨rfl, Or.inl (hnf2 hbad3)⟩
+            · rw [hre3]
+              unfold exactOf
+              rw [hrem2]
+              have hdl8 : ((data.drop pos).drop 8).length = (data.drop pos).length - 8 :=
+                List.length_drop
+              left
+              by_cases h16 : 16 ≤ (data.drop pos).length
+              · have h' : 8 ≤ ((data.drop pos).drop 8).length := by rw [hdl8]; omega
+                rw [if_pos h']
+                unfold headerOf; rw [if_neg hne, if_neg h8]; dsimp only
+                rw [if_pos hs1, if_pos h16]
+              · have h' : ¬ 8 ≤ ((data.drop pos).drop 8).length := by rw [hdl8]; omega
+                rw [if_neg h']
+                unfold headerOf; rw [if_neg hne, if_neg h8]; dsimp only
+                rw [if_pos hs1, if_neg h16]
+          · rw [if_neg hs1]
+            left; unfold headerOf; rw [if_neg hne, if_neg h8]; dsimp only
+            rw [if_neg hs1]
+  · rw [hro]; right
+    refine ⟨rfl, Or.inl fun hn => ?_⟩
+    simp only at hsc
+    exact hn (Ev.rd 0) (by rw [hsc]; exact List.mem_cons_self) rfl
+  · rw [hro]; right
+    simp only at hsc
+    exact ⟨rfl, Or.inr (by rw [hsc]; rfl)⟩
+
+/-- **`read_header`: fault or exact** (every schedule, every stream position): the I/O error,
+or exactly the header of the bytes at the position — a truncated or zero-padded header is never
+decoded after a fault. -/
+theorem readHeader_fault_or_exact (data : List UInt8) (pos : Nat) (sched : List Ev) :
+    readHeader data pos sched = none ∨ readHeader data pos sched = headerOf (data.drop pos) := by
+  rcases readHeader_cases data pos sched with h | ⟨h, _⟩
+  · exact Or.inr h
+  · exact Or.inl h
+
+/-- **`read_header` is independent of chunking** (after the repair that completes a short first
+read): any short reads, and `Interrupted` anywhere but on the very first `read`. -/
+theorem readHeader_chunk_independent (data : List UInt8) (pos : Nat) (sched : List Ev)
+    (hn : NoFault sched) (hi : sched.head? ≠ some Ev.intr) :
+    readHeader data pos sched = headerOf (data.drop pos) := by
+  rcases readHeader_cases data pos sched with h | ⟨_, h | h⟩
+  · exact h
+  · exact absurd hn h
+  · exact absurd h hi
+
+/-- The first, bare `read` does not retry: `Interrupted` there is returned as an error (it is an
+error, not a hidden one; std convention would retry). -/
+theorem readHeader_interrupted_first (data : List UInt8) (pos : Nat) (rest : List Ev) :
+    readHeader data pos (Ev.intr :: rest) = none := by
+  unfold readHeader readOnce; rfl
+
+/-! ### The sniff (`container_from_stream`) -/
+
+theorem firstMatch_append (a c : List (Bool × Fmt)) :
+    firstMatch (a ++ c) = match firstMatch a with | some d => some d | none => firstMatch c := by
+  induction a with
+  | nil => rfl
+  | cons r a ih =>
+    obtain ⟨x, d⟩ := r
+    cases x with
+    | true => rfl
+    | false => simpa [firstMatch] using ih
+
+def pre8 (pdf : Bool) (buf : List UInt8) : List (Bool × Fmt) := (rulesB pdf buf false).take 8
+def post10 (pdf : Bool) (buf : List UInt8) : List (Bool × Fmt) := (rulesB pdf buf false).drop 10
+
+/-- The rule list around the ID3 branch: eight magic tests, the two ID3 rules, the rest. -/
+theorem rulesB_split (pdf : Bool) (buf : List UInt8) (f : Bool) :
+    rulesB pdf buf f = pre8 pdf buf
+      ++ ((isId3 buf && f, lFlac) :: (isId3 buf, lMp3) :: post10 pdf buf) := by
+  cases pdf <;> rfl
+
+theorem id3Reached_eq (pdf : Bool) (buf : List UInt8) :
+    id3Reached pdf buf = ((firstMatch (pre8 pdf buf)).isNone && isId3 buf) := rfl
+
+/-- Outside the ID3 branch the probe's answer is irrelevant. -/
+theorem detectB_not_reached (pdf : Bool) (buf : List UInt8) (f : Bool)
+    (h : id3Reached pdf buf = false) : detectB pdf buf f = detectB pdf buf false := by
+  unfold detectB
+  split
+  · rfl
+  · rw [rulesB_split pdf buf f, rulesB_split pdf buf false, firstMatch_append, firstMatch_append]
+    cases hA : firstMatch (pre8 pdf buf) with
+    | some d => rfl
+    | none =>
+      have : isId3 buf = false := by
+        rw [id3Reached_eq, hA] at h; simpa using h
+      simp [this, firstMatch]
+
+/-- Inside the ID3 branch the probe's answer decides between FLAC and MP3. -/
+theorem detectB_reached (pdf : Bool) (buf : List UInt8) (f : Bool)
+    (h : id3Reached pdf buf = true) :
+    detectB pdf buf f = some (if f then lFlac else lMp3) := by
+  rw [id3Reached_eq] at h
+  simp only [Bool.and_eq_true, Option.isNone_iff_eq_none] at h
+  obtain ⟨hA, hid⟩ := h
+  have hlen : ¬ buf.length < 2 := by
+    unfold isId3 at hid; simp at hid; omega
+  unfold detectB
+  rw [if_neg hlen, rulesB_split pdf buf f, firstMatch_append, hA, hid]
+  cases f <;> rfl
+
+theorem fill_cases (s : St) (want : Nat) :
+    (∃ s', fill s want = (none, s') ∧ ¬ NoFault s.sched)
+    ∨ (∃ s', fill s want = (some ((s.data.drop s.pos).take want), s') ∧ s'.data = s.data ∧
+        s'.pos = s.pos + ((s.data.drop s.pos).take want).length ∧ s'.seeks = s.seeks ∧
+        (NoFault s.sched → NoFault s'.sched)) := by
+  cases h : fill s want with
+  | mk r s' =>
+    cases r with
+    | none =>
+      refine Or.inl ⟨s', rfl, fun hn => ?_⟩
+      obtain ⟨_, hh, _⟩ := fill_chunk_independent s want hn
+      rw [h] at hh; simp at hh
+    | some bs =>
+      obtain ⟨e1, e2, e3, e4, c, hc, _⟩ := readFill_exact _ s want bs s' (Nat.le_refl _) h
+      subst e1
+      exact Or.inr ⟨s', rfl, e2, e3, e4, fun hn => by rw [hc] at hn; exact hn.right⟩
+
+theorem seekTo_cases (s : St) (p : Nat) :
+    (∃ s', seekTo s p = (true, s') ∧ s'.data = s.data ∧ s'.pos = p ∧ s'.sched = s.sched ∧
+        (NoSeekFault s.seeks → NoSeekFault s'.seeks))
+    ∨ (∃ s', seekTo s p = (false, s') ∧ ¬ NoSeekFault s.seeks) := by
+  rcases seekTo_spec s p with ⟨s', h, e1, e2, e3, c, hc, _⟩ | h
+  · exact Or.inl ⟨s', h, e1, e2, e3, fun hn => by rw [hc] at hn; exact hn.right⟩
+  · exact Or.inr h
+
+/-- The ID3 probe: the true answer ("the four bytes after the tag are fLaC", `false` when fewer
+than four bytes are there), or a hard I/O error of its seek / its reads. -/
+theorem probe_cases (s : St) (buf : List UInt8) :
+    probe s buf = .ok (sliceEq s.data (10 + id3Size buf) mFLaC)
+      ∨ (probe s buf = .error () ∧ (¬ NoFault s.sched ∨ ¬ NoSeekFault s.seeks)) := by
+  unfold probe
+  rcases seekTo_cases s (10 + id3Size buf) with ⟨s3, h3, d3, p3, c3, _⟩ | ⟨_, h3, hbad⟩
+  · rw [h3]; dsimp only
+    rcases readExact_cases s3 4 with ⟨_, hre, hbad⟩ | ⟨_, hre, _⟩
+    · rw [hre]; right; exact ⟨rfl, Or.inl (by rw [← c3]; exact hbad)⟩
+    · rw [hre]; left
+      unfold exactOf
+      rw [d3, p3]
+      have hb : mFLaC.length = 4 := rfl
+      by_cases h4 : 4 ≤ (s.data.drop (10 + id3Size buf)).length
+      · rw [if_pos h4]; rfl
+      · rw [if_neg h4]
+        dsimp only
+        have hne : (s.data.drop (10 + id3Size buf)).take 4 ≠ mFLaC := by
+          intro heq
+          have := congrArg List.length heq
+          rw [List.length_take, hb] at this
+          omega
+        unfold sliceEq
+        rw [hb, beq_eq_false_iff_ne.2 hne]
+  · rw [h3]; right; exact ⟨rfl, Or.inr hbad⟩
+
+/-- Master lemma for the sniff, every read schedule and every seek schedule: the full-read
+detection; or nothing, because an I/O operation failed; or — the one hidden error — `mp3` for a
+FLAC stream behind an ID3 tag, because the probe's seek or read failed (`unwrap_or(false)`). -/
+theorem sniff_cases (pdf : Bool) (data : List UInt8) (sched : List Ev) (seeks : List Bool) :
+    sniff pdf data sched seeks = detect pdf data
+    ∨ (sniff pdf data sched seeks = none ∧ (¬ NoFault sched ∨ ¬ NoSeekFault seeks))
+    ∨ (id3Reached pdf (data.take 16) = true ∧ sniff pdf data sched seeks = some lMp3 ∧
+        detect pdf data = some lFlac ∧ (¬ NoFault sched ∨ ¬ NoSeekFault seeks)) := by
+  unfold sniff
+  rcases seekTo_cases { data := data, pos := 0, sched := sched, seeks := seeks } 0 with
+    ⟨s0, h0, d0, p0, c0, k0⟩ | ⟨_, h0, hbad⟩
+  · rw [h0]; dsimp only
+    simp only at d0 c0 k0
+    rcases fill_cases s0 16 with ⟨_, hf, hbad⟩ | ⟨s1, hf, d1, _, k1, c1⟩
+    · rw [hf]; right; left; exact ⟨rfl, Or.inl (by rw [← c0]; exact hbad)⟩
+    · rw [d0, p0, List.drop_zero] at hf
+      rw [hf]; dsimp only
+      rcases seekTo_cases s1 0 with ⟨s2, h2, d2, _, c2, k2⟩ | ⟨_, h2, hbad⟩
+      · rw [h2]; dsimp only
+        have hsched : NoFault sched → NoFault s2.sched := by
+          intro hn; rw [c2]; exact c1 (by rw [c0]; exact hn)
+        have hseeks : NoSeekFault seeks → NoSeekFault s2.seeks := by
+          intro hn; exact k2 (by rw [k1]; exact k0 hn)
+        have hdata : s2.data = data := by rw [d2, d1, d0]
+        by_cases hr : id3Reached pdf (data.take 16) = true
+        · rw [if_pos hr]
+          rcases probe_cases s2 (data.take 16) with hp | ⟨hp, hbad⟩
+          · rw [hp, hdata]; left; rfl
+          · rw [hp]; dsimp only
+            by_cases hflac : sliceEq data (10 + id3Size (data.take 16)) mFLaC = true
+            · right; right
+              refine ⟨hr, ?_, ?_, ?_⟩
+              · rw [detectB_reached pdf _ false hr]; rfl
+              · unfold detect; rw [hflac, detectB_reached pdf _ true hr]; rfl
+              · rcases hbad with hb | hb
+                · exact Or.inl fun hn => hb (hsched hn)
+                · exact Or.inr fun hn => hb (hseeks hn)
+            · left
+              unfold detect
+              rw [Bool.not_eq_true] at hflac
+              rw [hflac]
+        · rw [if_neg hr]; left
+          unfold detect
+          rw [Bool.not_eq_true] at hr
+          exact (detectB_not_reached pdf _ _ hr).symm
+      · rw [h2]; right; left
+        exact ⟨rfl, Or.inr fun hn => hbad (by rw [k1]; exact k0 hn)⟩
+  · rw [h0]; right; left; exact ⟨rfl, Or.inr hbad⟩
+
+/-- **Sniffing does not depend on chunking**: without a hard read fault and without a failing
+seek (any short reads, `Interrupted` anywhere) the detected container is the one detected from
+the whole byte string (C11's `detect`). -/
+theorem sniff_chunk_independent (pdf : Bool) (data : List UInt8) (sched : List Ev)
+    (seeks : List Bool) (hn : NoFault sched) (hs : NoSeekFault seeks) :
+    sniff pdf data sched seeks = detect pdf data := by
+  rcases sniff_cases pdf data sched seeks with h | ⟨_, h | h⟩ | ⟨_, _, _, h | h⟩
+  · exact h
+  · exact absurd hn h
+  · exact absurd hs h
+  · exact absurd hn h
+  · exact absurd hs h
+
+/-- **A fault never yields a foreign container**: under every read and seek schedule the sniff
+returns nothing, or the full-read detection, or — ID3 header, probe failed — `mp3`. A partially
+filled or zero-padded buffer is never matched against the magics. -/
+theorem sniff_fault_outcomes (pdf : Bool) (data : List UInt8) (sched : List Ev) (seeks : List Bool) :
+    sniff pdf data sched seeks = none ∨ sniff pdf data sched seeks = detect pdf data
+      ∨ (isId3 (data.take 16) = true ∧ detect pdf data = some lFlac
+          ∧ sniff pdf data sched seeks = some lMp3) := by
+  rcases sniff_cases pdf data sched seeks with h | ⟨h, _⟩ | ⟨hr, h, hd, _⟩
+  · exact Or.inr (Or.inl h)
+  · exact Or.inl h
+  · refine Or.inr (Or.inr ⟨?_, hd, h⟩)
+    unfold id3Reached at hr
+    simp only [Bool.and_eq_true] at hr
+    exact hr.2
+
+/-- **A hard read fault while filling the sniff buffer is "nothing detected"**, never a format:
+the reads before the failing one cannot fill the 16 bytes nor reach the end of the data. -/
+theorem sniff_read_fault_is_none (pdf : Bool) (data : List UInt8) (pre post : List Ev)
+    (seeks : List Bool) (hn : NoFault pre) (hb : budget pre < 16) (hd : budget pre < data.length) :
+    sniff pdf data (pre ++ Ev.rd 0 :: post) seeks = none := by
+  unfold sniff
+  rcases seekTo_cases { data := data, pos := 0, sched := pre ++ Ev.rd 0 :: post, seeks := seeks } 0
+    with ⟨s0, h0, d0, p0, c0, _⟩ | ⟨_, h0, _⟩
+  · rw [h0]; dsimp only
+    have := fill_fault_reached pre post s0 16 c0 hn hb (by rw [d0, p0]; simpa using hd)
+    cases hf : fill s0 16 with
+    | mk r s1 => rw [hf] at this; simp only at this; subst this; rfl
+  · rw [h0]
+
+/-- The full statement for the sniff: an I/O error is never turned into a detection. -/
+def SniffFaultNeverHidden : Prop :=
+  ∀ (pdf : Bool) (data : List UInt8) (sched : List Ev) (seeks : List Bool),
+    sniff pdf data sched seeks = none ∨ sniff pdf data sched seeks = detect pdf data
+
+/-- **Witness — the code falsifies the full statement**: a FLAC stream behind an ID3v2 tag whose
+probe read fails (or whose probe seek fails) is reported as `mp3`. Replayed on
+`container_from_stream` by the harness (class `sniff-id3-probe-error-hidden`). -/
+theorem sniff_id3_fault_hidden :
+    ∃ (data : List UInt8) (sched : List Ev) (seeks : List Bool),
+      detect false data = some lFlac ∧ sniff false data sched seeks = some lMp3 :=
+  ⟨[0x49, 0x44, 0x33, 4, 0, 0, 0, 0, 0, 2, 0x78, 0x78, 0x66, 0x4c, 0x61, 0x43],
+    [Ev.rd 16, Ev.rd 0], [], by decide +kernel⟩
+
+theorem sniff_id3_seek_fault_hidden :
+    detect false [0x49, 0x44, 0x33, 4, 0, 0, 0, 0, 0, 2, 0x78, 0x78, 0x66, 0x4c, 0x61, 0x43] = some lFlac
+    ∧ sniff false [0x49, 0x44, 0x33, 4, 0, 0, 0, 0, 0, 2, 0x78, 0x78, 0x66, 0x4c, 0x61, 0x43] []
+        [false, false, true] = some lMp3 := by decide +kernel
+
+theorem sniff_fault_never_hidden_false : ¬ SniffFaultNeverHidden := by
+  intro h
+  have := h false [0x49, 0x44, 0x33, 4, 0, 0, 0, 0, 0, 2, 0x78, 0x78, 0x66, 0x4c, 0x61, 0x43]
+    [Ev.rd 16, Ev.rd 0] []
+  revert this
+  decide +kernel
+
+/-! ### `format_from_stream` -/
+
+/-- Chunking does not change the resolved format. -/
+theorem format_chunk_independent (pdf : Bool) (hinted : Option Fmt) (hint : Fmt)
+    (data : List UInt8) (sched : List Ev) (seeks : List Bool)
+    (hn : NoFault sched) (hs : NoSeekFault seeks) :
+    formatFromStream pdf hinted hint data sched seeks = reconcile hinted hint (detect pdf data) := by
+  unfold formatFromStream; rw [sniff_chunk_independent pdf data sched seeks hn hs]
+
+/-- Every read/seek schedule: the fault-free answer, or the caller's hint (the sniff's I/O error
+became "nothing detected"), or the answer for `mp3` on a FLAC-behind-ID3 stream. -/
+theorem format_outcomes_partial (pdf : Bool) (hinted : Option Fmt) (hint : Fmt)
+    (data : List UInt8) (sched : List Ev) (seeks : List Bool) :
+    formatFromStream pdf hinted hint data sched seeks = reconcile hinted hint (detect pdf data)
+    ∨ (formatFromStream pdf hinted hint data sched seeks = hint
+        ∧ (¬ NoFault sched ∨ ¬ NoSeekFault seeks))
+    ∨ (formatFromStream pdf hinted hint data sched seeks = reconcile hinted hint (some lMp3)
+        ∧ detect pdf data = some lFlac ∧ (¬ NoFault sched ∨ ¬ NoSeekFault seeks)) := by
+  unfold formatFromStream
+  rcases sniff_cases pdf data sched seeks with h | ⟨h, hb⟩ | ⟨_, h, hd, hb⟩
+  · exact Or.inl (by rw [h])
+  · refine Or.inr (Or.inl ⟨?_, hb⟩)
+    rw [h]; unfold reconcile; cases hinted <;> rfl
+  · exact Or.inr (Or.inr ⟨by rw [h], hd, hb⟩)
+
+/-- The full statement for `format_from_stream` (which returns a `String` and so cannot report an
+error): an I/O fault does not change the resolved format. -/
+def FormatFaultTransparent : Prop :=
+  ∀ (pdf : Bool) (hinted : Option Fmt) (hint : Fmt) (data : List UInt8) (sched : List Ev)
+    (seeks : List Bool),
+    formatFromStream pdf hinted hint data sched seeks = reconcile hinted hint (detect pdf data)
+
+/-- **Witness — `format_from_stream` hides a sniff I/O error**: JPEG bytes, hint `png`, the first
+read fails: the answer is the hint `png` (fault-free: `jpg`). Replayed by the harness; end to end
+this is the open finding `transient-io-absorbed:jumbf_io::format_from_stream…`. -/
+theorem format_hides_sniff_fault :
+    ¬ NoFault [Ev.rd 0]
+    ∧ formatFromStream false (some C2pa.C11.lPng) C2pa.C11.lPng [0xff, 0xd8, 0xff, 0xe0] [Ev.rd 0] []
+        = C2pa.C11.lPng
+    ∧ reconcile (some C2pa.C11.lPng) C2pa.C11.lPng (detect false [0xff, 0xd8, 0xff, 0xe0])
+        = C2pa.C11.lJpg := by
+  refine ⟨fun h => h (Ev.rd 0) List.mem_cons_self rfl, by decide +kernel, by decide +kernel⟩
+
+theorem format_fault_transparent_false : ¬ FormatFaultTransparent := by
+  intro h
+  have := h false (some C2pa.C11.lPng) C2pa.C11.lPng [0xff, 0xd8, 0xff, 0xe0] [Ev.rd 0] []
+  revert this
+  decide +kernel
 
 /-! ### Non-vacuity -/
-example : NoFault [1, 3, 2] := by intro k hk; simp at hk; omega
-example : sniff true [0xff, 0xd8, 0xff, 0xe0, 0, 16] [1, 1, 1, 1, 1, 1] = some C2pa.C11.lJpg := by
+example : NoFault [Ev.rd 1, Ev.intr, Ev.rd 3, Ev.rd 2] := by
+  intro e he; simp at he; rcases he with rfl | rfl | rfl | rfl <;> simp
+example : NoSeekFault [false, false] := by intro x hx; simpa using hx
+example : sniff true [0xff, 0xd8, 0xff, 0xe0, 0, 16] [.rd 1, .intr, .rd 1, .rd 1, .rd 1, .rd 1, .rd 1] []
+    = some C2pa.C11.lJpg := by decide +kernel
+example : sniff true [0xff, 0xd8, 0xff, 0xe0, 0, 16] [.rd 1, .rd 0] [] = none := by decide +kernel
+example : sniff true [0xff, 0xd8, 0xff, 0xe0, 0, 16] [] [false, true] = none := by decide +kernel
+-- fault-reached hypotheses are satisfiable: two 1-byte reads, then the failing one
+example : budget [Ev.rd 1, Ev.intr, Ev.rd 1] < 16 ∧ NoFault [Ev.rd 1, Ev.intr, Ev.rd 1] := by
+  refine ⟨by decide, ?_⟩
+  intro e he; simp at he; rcases he with rfl | rfl | rfl <;> simp
+example : readToVec [1, 2, 3, 4, 5] 1 3 [.rd 1, .intr, .rd 5] [false] = some [2, 3, 4] := by decide +kernel
+example : readToVec [1, 2, 3, 4, 5] 1 3 [.rd 1, .rd 0] [] = none := by decide +kernel
+example : readToVec [1, 2, 3, 4, 5] 1 3 [.rd 3, .rd 0] [] = some [2, 3, 4] := by decide +kernel
+example : readToVec [1, 2, 3, 4, 5] 1 3 [] [false, false, true] = none := by decide +kernel
+example : readHeader [0, 0, 0, 12, 0x6a, 0x75, 0x6d, 0x62, 9] 0 [.rd 3, .intr, .rd 2] = some (.ok 0x6A756D62 12) := by
   decide +kernel
-example : sniff true [0xff, 0xd8, 0xff, 0xe0, 0, 16] [1, 0] = none := by decide +kernel
+example : readHeader [7, 0, 0, 0, 12, 0x6a, 0x75, 0x6d, 0x62] 1 [.rd 3, .rd 0] = none := by decide +kernel
+example : id3Reached false [0x49, 0x44, 0x33, 4, 0, 0, 0, 0, 0, 2, 0x78, 0x78, 0x66, 0x4c, 0x61, 0x43] = true := by
+  decide +kernel
 
 end C2pa.C35
